@@ -140,6 +140,9 @@ impl Family for Repro {
         self.counter += 1;
         let texts: Vec<String> = if case.get("k1").is_some() {
             collide_texts(case)
+        } else if case.get("fam").is_some() {
+            // an item of C04's rule families (mostly ill-formed): the diagnostics of a rejected program are reproducible too
+            crate::fam_rules::render(case).unwrap_or_default()
         } else if case.get("linkfiles").is_some() {
             link_files(case)
         } else if case["many"] == true {
